@@ -43,15 +43,19 @@ def verify(wt, patch, demo):
 def run_checks(name, props):
     d = os.path.join(VERIF, "seeded", name)
     patch = os.path.join(d, "patch.diff")
-    rc, out = sh(["git", "-C", "/repo", "status", "--porcelain"])
-    if out.strip(): raise SystemExit("/repo is not clean: " + out)
-    rc, out = sh(["git", "-C", "/repo", "apply", patch])
-    if rc != 0: raise SystemExit("cannot apply to /repo: " + out)
+    # SEED_EVAL_WT=<scratch worktree>: the change is applied there and the checks import simpleline from it (VERIF_REPO) - several changes can then be evaluated
+    # side by side; without it the change is applied to /repo itself and reverted afterwards
+    target = os.environ.get("SEED_EVAL_WT") or "/repo"
+    rc, out = sh(["git", "-C", target, "status", "--porcelain"])
+    if out.strip(): raise SystemExit(target + " is not clean: " + out)
+    rc, out = sh(["git", "-C", target, "apply", patch])
+    if rc != 0: raise SystemExit("cannot apply to " + target + ": " + out)
+    env = dict(os.environ, VERIF_REPO=target) if target != "/repo" else None
     results = {}
     try:
         for p in props:
             t = time.time()
-            rc, out = sh(["./check", p, "--tier", "quick"], cwd=VERIF, timeout=3000)
+            rc, out = sh(["./check", p, "--tier", "quick"], cwd=VERIF, env=env, timeout=3000)
             lines = [l for l in out.split("\n") if l.startswith("VIOLATION")]
             summary = [l for l in out.split("\n") if l.startswith(p + " tier=")]
             verdict = "missed"
@@ -70,8 +74,8 @@ def run_checks(name, props):
             results[p] = {"exit": rc, "verdict": verdict, "violation_line": lines[0] if lines else None, "summary": summary[-1] if summary else out[-300:],
                           "wall_s": round(time.time() - t, 1), "replay": replay}
     finally:
-        sh(["git", "-C", "/repo", "checkout", "--", "."])
-        sh(["git", "-C", "/repo", "clean", "-fdq"])
+        sh(["git", "-C", target, "checkout", "--", "."])
+        sh(["git", "-C", target, "clean", "-fdq"])
     return results
 
 
